@@ -90,6 +90,7 @@ def run_real(scn, max_wall_s=60):
             err = f.read()[-600:].decode(errors='replace')
         w = types.SimpleNamespace(sim=types.SimpleNamespace(log=simlog, now=time.time_ns() - scn['t0']), clog=clog, timed_out=timed_out,
                                   kills=kills, stderr=err, warnings={'newer': 0, 'older': 0, 'dsnewer': 0})
+        w.schedule_signature = lambda: f'realnet|{scn["seed"]}|{len(events)}|{len(kills)}'
         w.process_log = lambda node=None: [e for e in clog if e['ev'] == 'process' and (node is None or e['node'] == node)]
         return w
     finally:
